@@ -32,6 +32,15 @@ Modelling decisions
   * bit operands of memory forms: bit 0..7 only (AS also accepts a larger "bit" and adds it to the base;
     the manual's syntax is bit 0..7 for memory, 0..15 for registers).
   * LDINTB is the manual's macro LDC #hi,INTBH / LDC #lo,INTBL.
+  * MOV.B:S R0L/R0H,A0/A1 (source code 00 of `0011 0DSS`) is left out: which half of R0 goes with which
+    address register is not certain from memory; JMPS/JSRS #18..255; negative dsp:20 are not generated.
+  * JMP.S to the directly following address is turned into NOP by AS on purpose (class RelS); displacements
+    in front of `[reg]` are always literals, never symbols (class Dsp: `name[x]` is AS's section syntax).
+  * KNOWN: bit address 0 relative to SB is assembled in the 16-bit form (class BaseSB8).
+Defects found with this table (repaired on branch agent/isaBG, see proposed/C14/m16c-*.md): ADJNZ/SBJNZ read
+the increment from the wrong operand; JMPI/JSRI dsp:20[An] above 0FFFFh; abs16/abs20, JMP.A/JSR.A and
+STC PC,dest report an error and still emit code; base of bit,base[SB] / bit,base[FB] unchecked and the bit
+address truncated; explicit :S of the bit instructions silently replaced by :G.
 """
 from .common import Form, Int, Enum, Rel, Isa, sx, le16
 
